@@ -1405,6 +1405,9 @@ impl World {
                 }
             }
             if key_adding {
+                if let Some((0, ..)) = po.old {
+                    self.fail(&["C03"], "after a key-adding call an old table with nothing left to move is still allocated".into());
+                }
                 if let (Some(p), Some(po_old)) = (&pre, po.old) {
                     if let Some((l0, ..)) = p.old {
                         let expect = l0 - l0.min(self.r);
@@ -1431,7 +1434,7 @@ impl World {
     pub fn fill_probe(&mut self, mid: usize, start: u64) {
         let Some(m) = self.maps.get(mid).and_then(|m| m.as_ref()) else { return };
         let n = m.capacity() - m.len().min(m.capacity());
-        if n > 5000 {
+        if n > 600 {
             return;
         }
         let mut cap_prev = m.capacity();
